@@ -611,4 +611,118 @@ theorem C14_sw_actual_only_by_event (n : Node) (op : Op) (i : Nat) (x x' : Sw)
     · exact absurd rfl hne
   all_goals exact hne rfl
 
+
+/-- The explicit events that can write the actual health of file `f` of folder `G` in step `op`. -/
+def fileActualCause (n : Node) (op : Op) (G : Folder) (f : File) (new : FsH) : Prop :=
+  match op with
+  /- attack / external writer (database queries, FTP transfer) -/
+  | .fileSet F nm h => G.name = F ∧ f.name = nm ∧ new = h
+  | .file F nm .corrupt =>
+    n.power = .on ∧ G.name = F ∧ G.deleted = false ∧ f.name = nm ∧ f.deleted = false ∧ f.actual = .good ∧ new = .corrupt
+  | .folder F .corrupt => n.power = .on ∧ G.name = F ∧ G.deleted = false ∧ f.deleted = false ∧ f.actual = .good ∧ new = .corrupt
+  /- repair / restore -/
+  | .file F nm .repair | .file F nm .restore | .fsRestoreFile F nm =>
+    n.power = .on ∧ G.name = F ∧ G.deleted = false ∧ f.name = nm ∧ f.deleted = false ∧ f.actual = .corrupt ∧ new = .good
+  | .folder F .repair => n.power = .on ∧ G.name = F ∧ G.deleted = false ∧ f.deleted = false ∧ f.actual = .corrupt ∧ new = .good
+  /- timed completion of a folder restore -/
+  | .tick =>
+    n.powerPhase.power = .on ∧ G.deleted = false ∧ G.restoreCd = 1 ∧ f.deleted = false ∧ f.actual = .corrupt ∧ new = .good
+  | _ => False
+
+theorem File.repair_actual (f : File) (h : f.repair.actual ≠ f.actual) :
+    f.deleted = false ∧ f.actual = .corrupt ∧ f.repair.actual = .good := by
+  unfold File.repair at h ⊢
+  split at h
+  · exact absurd rfl h
+  · rename_i hd
+    split at h
+    · rename_i hc; rw [if_neg hd, if_pos hc]; exact ⟨by simpa using hd, hc, rfl⟩
+    · exact absurd rfl h
+theorem File.restore_actual (f : File) (h : f.restore.actual ≠ f.actual) :
+    f.deleted = false ∧ f.actual = .corrupt ∧ f.restore.actual = .good := by
+  unfold File.restore at h ⊢
+  split at h
+  · exact absurd rfl h
+  · rename_i hd
+    split at h
+    · rename_i hc; rw [if_neg hd, if_pos hc]; exact ⟨by simpa using hd, hc, rfl⟩
+    · exact absurd rfl h
+theorem File.corrupt_actual (f : File) (h : f.corrupt.actual ≠ f.actual) :
+    f.deleted = false ∧ f.actual = .good ∧ f.corrupt.actual = .corrupt := by
+  unfold File.corrupt at h ⊢
+  split at h
+  · exact absurd rfl h
+  · rename_i hd
+    split at h
+    · rename_i hc; rw [if_neg hd, if_pos hc]; exact ⟨by simpa using hd, hc, rfl⟩
+    · exact absurd rfl h
+
+/-- **C14 (file actual health, one step, any state).** A file's actual health differs after an operation only if
+the operation is one of the enumerated writers for that file: corrupt (file or folder request) or an external write;
+repair / restore (file, folder or file-system request); or the timestep in which its folder's restore completes. -/
+theorem C14_file_actual_only_by_event (n : Node) (op : Op) (j k : Nat) (G G' : Folder) (f f' : File)
+    (hG : n.folders[j]? = some G) (hG' : (n.apply op).folders[j]? = some G')
+    (hf : G.files[k]? = some f) (hf' : G'.files[k]? = some f') (hne : f'.actual ≠ f.actual) :
+    fileActualCause n op G f f'.actual := by
+  rw [apply_folders, List.getElem?_map, hG] at hG'
+  simp only [Option.map_some, Option.some.injEq] at hG'
+  subst hG'
+  rw [folderEff_files, List.getElem?_map, hf] at hf'
+  simp only [Option.map_some, Option.some.injEq] at hf'
+  subst hf'
+  cases op <;> simp only [fileEff, fileActualCause] at hne ⊢
+  case tick =>
+    split at hne
+    · rename_i hc
+      rw [if_pos hc]
+      by_cases h1 : G.restoreCd = 1
+      · simp only [h1, if_true] at hne ⊢
+        have hs : ∀ g : File, ((fun f1 : File => if G.scanCd = 1 then f1.scan else f1)
+            (if n.powerPhase.scanCd = 1 then g.scan else g)) = g ∨ True := fun _ => Or.inr trivial
+        -- the two possible scans leave `actual` and `deleted` alone
+        have ha : ((fun f1 : File => if G.scanCd = 1 then f1.scan else f1)
+            (if n.powerPhase.scanCd = 1 then f.scan else f)).actual = f.actual := by
+          by_cases h2 : G.scanCd = 1 <;> by_cases h3 : n.powerPhase.scanCd = 1 <;> simp [h2, h3]
+        have hd : ((fun f1 : File => if G.scanCd = 1 then f1.scan else f1)
+            (if n.powerPhase.scanCd = 1 then f.scan else f)).deleted = f.deleted := by
+          by_cases h2 : G.scanCd = 1 <;> by_cases h3 : n.powerPhase.scanCd = 1 <;> simp [h2, h3]
+        have := File.restore_actual _ (by rw [ha]; exact hne)
+        exact ⟨hc.1, hc.2, trivial, by rw [← hd]; exact this.1, by rw [← ha]; exact this.2.1, this.2.2⟩
+      · exfalso; apply hne
+        simp only [h1, if_false]
+        by_cases h2 : G.scanCd = 1 <;> by_cases h3 : n.powerPhase.scanCd = 1 <;> simp [h2, h3]
+    · exact absurd rfl hne
+  case folder F r =>
+    split at hne
+    · rename_i hc
+      rw [if_pos hc]
+      cases r <;> simp only [] at hne ⊢
+      case repair => have := f.repair_actual hne; exact ⟨hc.1, hc.2.1, hc.2.2, this⟩
+      case corrupt => have := f.corrupt_actual hne; exact ⟨hc.1, hc.2.1, hc.2.2, this⟩
+      all_goals exact hne rfl
+    · exact absurd rfl hne
+  case file F nm r =>
+    split at hne
+    · rename_i hc
+      rw [if_pos hc]
+      cases r <;> simp only [File.handle] at hne ⊢
+      case scan => exact hne (by simp)
+      case checkhash => exact hne rfl
+      case repair => have := f.repair_actual hne; exact ⟨hc.1, hc.2.1, hc.2.2.1, hc.2.2.2.1, this⟩
+      case restore => have := f.restore_actual hne; exact ⟨hc.1, hc.2.1, hc.2.2.1, hc.2.2.2.1, this⟩
+      case corrupt => have := f.corrupt_actual hne; exact ⟨hc.1, hc.2.1, hc.2.2.1, hc.2.2.2.1, this⟩
+    · exact absurd rfl hne
+  case fsRestoreFile F nm =>
+    split at hne
+    · rename_i hc
+      rw [if_pos hc]
+      have := f.restore_actual hne
+      exact ⟨hc.1, hc.2.1, hc.2.2.1, hc.2.2.2, this⟩
+    · exact absurd rfl hne
+  case fileSet F nm h =>
+    split at hne
+    · rename_i hc; rw [if_pos hc]; exact ⟨hc.1, hc.2, rfl⟩
+    · exact absurd rfl hne
+  all_goals first | exact hne rfl | (exfalso; apply hne; split <;> rfl)
+
 end Primaite.Health
